@@ -290,6 +290,12 @@ func translate(repo, pkgdir string, roots, fuels, params, ifaces, shapes, requir
 		return sb.String(), nil
 	}
 	var body strings.Builder
+	bodyOfFn := func(fi *fnInfo) *strings.Builder {
+		if f, ok := stage11.splitFn[fnKey(fi)]; ok {
+			return splitBody[f]
+		}
+		return bodyOf(fi.pk.path, &body, splitBody)
+	}
 	for _, fi := range t.order {
 		// a function is left out when a function it calls is left out, when its
 		// control skeleton is not the one the proofs were written for, or when it
@@ -309,11 +315,11 @@ func translate(repo, pkgdir string, roots, fuels, params, ifaces, shapes, requir
 			if err != nil {
 				fi.skip = err.Error()
 			} else {
-				bodyOf(fi.pk.path, &body, splitBody).WriteString(text)
+				bodyOfFn(fi).WriteString(text)
 				continue
 			}
 		}
-		bodyOf(fi.pk.path, &body, splitBody).WriteString("\n(* NOT TRANSLATED: " + fnKey(fi) + ": " + commentSafe(fi.skip) + " *)\n")
+		bodyOfFn(fi).WriteString("\n(* NOT TRANSLATED: " + fnKey(fi) + ": " + commentSafe(fi.skip) + " *)\n")
 	}
 	// the functions that must be there
 	need := map[string]bool{}
@@ -873,6 +879,16 @@ func addParam(fi *fnInfo, p param) {
 // opaqueName: the name of a named interface or func type that --iface made an
 // opaque handle ("" otherwise)
 func (t *tr) opaqueName(ty types.Type) string {
+	if tp, isTP := types.Unalias(ty).(*types.TypeParam); isTP {
+		// a value of a type parameter constrained by a named interface that --iface made opaque
+		// (V CacheItem): its methods are the parameters named for that interface
+		if cn, ok := types.Unalias(tp.Constraint()).(*types.Named); ok && t.opaque[cn.Obj().Name()] {
+			if _, isI := cn.Underlying().(*types.Interface); isI {
+				return cn.Obj().Name()
+			}
+		}
+		return ""
+	}
 	n, ok := types.Unalias(ty).(*types.Named)
 	if !ok {
 		return ""
@@ -959,6 +975,40 @@ func (t *tr) devirtSlice(ty types.Type) *types.Named {
 		return nil
 	}
 	return target
+}
+
+// isArrayField: --arrayfield S.f
+func (t *tr) isArrayField(sname, field string) bool {
+	for _, a := range stage11.arrayFields {
+		if a == sname+"."+field {
+			return true
+		}
+	}
+	return false
+}
+
+// arrayFieldSel: e is x.f with f a field listed by --arrayfield and x a pointer to its struct
+func (t *tr) arrayFieldSel(pk *pkgInfo, e ast.Expr) bool {
+	x, ok := ast.Unparen(e).(*ast.SelectorExpr)
+	if !ok {
+		return false
+	}
+	sel, ok := pk.info.Selections[x]
+	if !ok || sel.Kind() != types.FieldVal {
+		return false
+	}
+	if _, isArr := types.Unalias(sel.Type()).Underlying().(*types.Array); !isArr {
+		return false
+	}
+	tv, ok := pk.info.Types[x.X]
+	if !ok {
+		return false
+	}
+	if _, isPtr := types.Unalias(tv.Type).(*types.Pointer); !isPtr {
+		return false // a struct value would copy the array
+	}
+	n := t.structOf(tv.Type)
+	return n != nil && t.isArrayField(n.Origin().Obj().Name(), x.Sel.Name)
 }
 
 // objectOf: ty is a pointer to a struct type declared as an object type
@@ -1266,7 +1316,45 @@ func (t *tr) structOf(ty types.Type) *types.Named {
 	if t.packed[n.Origin().Obj().Name()] {
 		return nil // a packed struct: a handle
 	}
+	// --transparent S.f: S is the struct its only field points to
+	for _, tr := range stage11.transparent {
+		i := strings.Index(tr, ".")
+		if i > 0 && tr[:i] == n.Origin().Obj().Name() {
+			st := n.Origin().Underlying().(*types.Struct)
+			if st.NumFields() == 1 && st.Field(0).Name() == tr[i+1:] {
+				if inner := t.structOf(st.Field(0).Type()); inner != nil {
+					return inner
+				}
+			}
+		}
+	}
 	return n
+}
+
+// transparentSel: x.f with f the one field of a --transparent struct
+func (t *tr) transparentSel(pk *pkgInfo, x *ast.SelectorExpr) bool {
+	sel, ok := pk.info.Selections[x]
+	if !ok || sel.Kind() != types.FieldVal || len(stage11.transparent) == 0 {
+		return false
+	}
+	tv, ok := pk.info.Types[x.X]
+	if !ok {
+		return false
+	}
+	ty := types.Unalias(tv.Type)
+	if p, ok := ty.(*types.Pointer); ok {
+		ty = types.Unalias(p.Elem())
+	}
+	n, ok := ty.(*types.Named)
+	if !ok {
+		return false
+	}
+	for _, tr := range stage11.transparent {
+		if tr == n.Origin().Obj().Name()+"."+x.Sel.Name {
+			return true
+		}
+	}
+	return false
 }
 
 func (t *tr) structInfoOf(at ast.Node, n *types.Named) *structInfo {
@@ -1285,6 +1373,10 @@ func (t *tr) structInfoOf(at ast.Node, n *types.Named) *structInfo {
 				t.failf(at, "--via field %s.%s does not point to a translated struct", key.Name(), vf)
 			}
 			continue // threaded as an explicit parameter
+		}
+		if _, isArr := types.Unalias(st.Field(i).Type()).Underlying().(*types.Array); isArr && !t.isArrayField(key.Name(), st.Field(i).Name()) {
+			s.omitted = append(s.omitted, st.Field(i).Name())
+			continue
 		}
 		if t.inSubset(st.Field(i).Type()) {
 			s.fields = append(s.fields, st.Field(i))
@@ -1363,6 +1455,9 @@ func (t *tr) coqType(at ast.Node, ty types.Type) string {
 	}
 	if isEmptyInterface(ty) {
 		return "Z" // any: a handle
+	}
+	if arr, ok := ty.Underlying().(*types.Array); ok && len(stage11.arrayFields) > 0 && isIntegerType(arr.Elem()) {
+		return "gslice" // --arrayfield: a descriptor of the array (only as a listed struct field)
 	}
 	if ptrSliceOf(ty) {
 		return t.coqType(at, ty.(*types.Pointer).Elem())
